@@ -383,3 +383,24 @@ class Stats:
 
     def as_dict(self):
         return dict(sorted(self.c.items()))
+
+
+def other_filesystem_root():
+    """a writable directory on another file system than the system temporary directory (None if there is none):
+    where a data home lives on another device than $TMPDIR, a rename from one to the other is refused (EXDEV)"""
+    import tempfile
+    base = os.stat(tempfile.gettempdir()).st_dev
+    for cand in ("/dev/shm", "/run/shm", os.path.expanduser("~"), "/var/tmp", str(VERIF)):
+        try:
+            if os.path.isdir(cand) and os.access(cand, os.W_OK) and os.stat(cand).st_dev != base:
+                return cand
+        except OSError:
+            continue
+    return None
+
+
+def scratch_dir(prefix, other_fs=False):
+    """a fresh scratch directory, under the system temporary directory or - on request - on another file system"""
+    import tempfile
+    root = other_filesystem_root() if other_fs else None
+    return tempfile.mkdtemp(prefix=prefix, dir=root)
